@@ -461,3 +461,82 @@ def translate_compute_theta(path, cls):
         raise Unsupported('statement in compute_theta: ' + ast.dump(st)[:80])
 
     return f'Definition {cls.lower()}_compute_theta (tau : R) : theta_result :=\n  {body(f.body)}.\n'
+
+
+class QExprTr(ExprTr):
+    """Rational-arithmetic printer (Q) for the small closed-form functions that must be executed by vm_compute."""
+
+    def e(self, n):
+        if isinstance(n, ast.Constant):
+            v = n.value
+            if isinstance(v, bool):
+                raise Unsupported('bool')
+            f = Fraction(v)
+            return f'({f.numerator} # {f.denominator})' if f >= 0 else f'(-({-f.numerator} # {f.denominator}))'
+        if isinstance(n, ast.BinOp):
+            op = {ast.Add: '+', ast.Sub: '-', ast.Mult: '*', ast.Div: '/'}.get(type(n.op))
+            if not op:
+                raise Unsupported('Q binop')
+            return f'({self.e(n.left)} {op} {self.e(n.right)})'
+        if isinstance(n, ast.UnaryOp) and isinstance(n.op, ast.USub):
+            return f'(- {self.e(n.operand)})'
+        if isinstance(n, ast.Attribute) and ast.unparse(n) == 'self.tau':
+            return 'tau'
+        raise Unsupported('Q expr ' + ast.unparse(n))
+
+    def cmp(self, op, l, r):
+        a, b = self.e(l), self.e(r)
+        t = type(op)
+        if t is ast.Eq:
+            return f'(Qeq_bool {a} {b})'
+        if t is ast.Lt:
+            return f'(negb (Qle_bool {b} {a}))'
+        if t is ast.LtE:
+            return f'(Qle_bool {a} {b})'
+        if t is ast.Gt:
+            return f'(negb (Qle_bool {a} {b}))'
+        if t is ast.GtE:
+            return f'(Qle_bool {b} {a})'
+        raise Unsupported('Q cmp')
+
+
+def translate_compute_theta_q(path, cls):
+    mod, c, f = find_method(path, cls, 'compute_theta')
+    x = QExprTr(Scope(cls, {}, None, {}, {}, {'tau': 'tau'}))
+
+    def body(stmts):
+        if not stmts:
+            raise Unsupported('falls off the end')
+        st, rest = stmts[0], stmts[1:]
+        if isinstance(st, ast.Expr) and isinstance(st.value, ast.Constant):
+            return body(rest)
+        if isinstance(st, ast.Return):
+            return 'TInf' if x.is_inf(st.value) else f'TVal {x.e(st.value)}'
+        if isinstance(st, ast.Raise):
+            if 'ValueError' not in ast.unparse(st):
+                raise Unsupported('raise')
+            return 'TErr'
+        if isinstance(st, ast.If):
+            if st.orelse and rest:
+                raise Unsupported('statements after if/else')
+            return f'if {x.b(st.test)} then ({body(st.body)}) else ({body(st.orelse if st.orelse else rest)})'
+        raise Unsupported('statement')
+    return f'Definition {cls.lower()}_compute_theta_q (tau : Q) : theta_res :=\n  {body(f.body)}.\n'
+
+
+def qext(n):
+    src = ast.unparse(n)
+    if src in ("float('inf')", 'np.inf'):
+        return 'PInf'
+    if src in ("-float('inf')", '-np.inf'):
+        return 'MInf'
+    f = Fraction(ast.literal_eval(n))
+    return f'(Fin ({f.numerator} # {f.denominator}))'
+
+
+def translate_theta_domain_q(path, cls):
+    iv = class_attr(path, cls, 'theta_interval')
+    inv = class_attr(path, cls, 'invalid_thetas')
+    invs = '; '.join(f'({Fraction(ast.literal_eval(e)).numerator} # {Fraction(ast.literal_eval(e)).denominator})' for e in inv.elts)
+    return (f'Definition {cls.lower()}_dom : dom := {{| d_lo := {qext(iv.elts[0])}; d_hi := {qext(iv.elts[1])}; '
+            f'd_invalid := [{invs}] |}}.\n')
